@@ -116,7 +116,7 @@ def make_mutant_items(ctx, rng, n, owners, threads=False):
     items = []
     for k in range(n):
         s, name, owner, desc = M.mutate(rng, only=owners, threads=threads)
-        r = {"spelling": "id" if name in M.FORCE_ID_SPELLING else "mixed", "shuffle": k % 2 == 1, "descriptive": k % 4 == 3,
+        r = {"spelling": "id" if name in M.FORCE_ID_SPELLING else "mixed", "shuffle": k % 2 == 1, "descriptive": k % 4 == 3 and name not in M.FORCE_ID_SPELLING,
              "seed": rng.randrange(1 << 30), "numeric_names": (k % 5 == 0 and name not in ("duplicate_id", "duplicate_name")) or ("odd" if k % 5 == 2 else False)}
         doc = S.render(s, random.Random(r["seed"]), r["spelling"], r["shuffle"], r["descriptive"], r["numeric_names"])
         items.append(Item(s, doc, "mutant", mutator=name, owner=owner, desc=desc, render=r, group=scen_hash(s)))
